@@ -568,6 +568,13 @@ impl<'scope, 'data: 'scope, 'offsets> SplitResources<'data, 'offsets, 'scope> {
                 input as u64,
                 (bucket as u64) << 1 | u64::from(matches!(*lock, StringsSlot::WaitingForStrings(_))),
             );
+        } else {
+            let kind = |s: &StringsSlot| match s {
+                StringsSlot::Empty => 0u64,
+                StringsSlot::WaitingForStrings(_) => 1,
+                StringsSlot::Strings(_) => 2,
+            };
+            crate::verif_hooks::evlog::ev(29, input as u64, (bucket as u64) << 4 | kind(&slot) << 2 | kind(&lock));
         }
         replace(&mut lock, slot)
     }
